@@ -47,6 +47,9 @@ pub struct StyleSheetTransformer {
 
 impl StyleSheetTransformer {
     pub fn from_css(path: &str, css: &str, options: StyleSheetOptions) -> Self {
+        // (a byte order mark is not part of the style sheet: left in place it would be read as
+        // the first identifier of the first rule)
+        let css = css.strip_prefix('\u{FEFF}').unwrap_or(css);
         let parser_input = &mut ParserInput::new(css);
         let parser = &mut cssparser::Parser::new(parser_input);
         let mut input = StepParser::wrap(parser);
